@@ -1,12 +1,16 @@
 """Canonical forms: the only place where 'equal content' is defined.
 
 canon(x) maps saved objects and returned objects to plain JSON-able structures.  It is deliberately blind to
-  * container type (list / tuple / ndarray -> list; set / frozenset -> sorted list),
+  * container type (list / tuple / ndarray / range -> list; set / frozenset -> sorted list; dict, table Row and plain
+    attribute objects -> map; a table -> list of row maps),
   * numeric dtype (numpy scalars -> Python, integral floats -> int),
-  * the difference between None / NaN / pandas NA,
+  * the difference between None / NaN / pandas NA / a missing key / an empty container as a map value,
   * the order of things that are sets or graph edge collections,
 and to nothing else.  It works on the OBJECTS the public API takes and returns (dataclass fields, graph edges,
 dict/set contents, table rows), never on a loader's private flattened rows.
+
+canon_guided(observed, expected) additionally sorts a list in `observed` where `expected` holds a set at the same
+place (a set that came back from a file as an array is still the same content).
 """
 import dataclasses
 import json
@@ -20,6 +24,29 @@ def _np():
 
 def _sort_key(x):
     return json.dumps(x, sort_keys=True, default=repr)
+
+
+def _is_empty(c):
+    return c is None or (isinstance(c, (list, dict)) and len(c) == 0) or c == {"__map__": []}
+
+
+def _map(pairs):
+    """pairs of (canonical key, canonical value) -> map form; None / empty values are treated like a missing key."""
+    items = [[k, v] for k, v in pairs if not _is_empty(v)]
+    items.sort(key=lambda kv: _sort_key(kv[0]))
+    return {"__map__": items}
+
+
+def _fields(x):
+    """(name, value) pairs of a record-like object, or None."""
+    tn = type(x).__name__
+    if tn == "Row":
+        return list(x.to_dict().items())
+    if tn == "CallSite":
+        return None
+    if dataclasses.is_dataclass(x) and not isinstance(x, type):
+        return [(f.name, getattr(x, f.name)) for f in dataclasses.fields(x)]
+    return None
 
 
 def canon(x, _depth=0):
@@ -41,27 +68,22 @@ def canon(x, _depth=0):
         return x
     if isinstance(x, bytes):
         return {"__bytes__": x.hex()}
-    if isinstance(x, (list, tuple)):
+    if isinstance(x, (list, tuple, range)):
         return [canon(v, _depth + 1) for v in x]
     if isinstance(x, np.ndarray):
-        return [canon(v, _depth + 1) for v in x.tolist()] if x.dtype != object else [canon(v, _depth + 1) for v in x]
+        return [canon(v, _depth + 1) for v in (x.tolist() if x.dtype != object else x)]
     if isinstance(x, (set, frozenset)):
         return sorted((canon(v, _depth + 1) for v in x), key=_sort_key)
     if isinstance(x, dict):
-        items = [[canon(k, _depth + 1), canon(v, _depth + 1)] for k, v in x.items()]
-        items.sort(key=lambda kv: _sort_key(kv[0]))
-        return {"__map__": items}
-    # lian tables
+        return _map((canon(k, _depth + 1), canon(v, _depth + 1)) for k, v in x.items())
     tn = type(x).__name__
     if tn == "DataModel":
-        rows = []
-        for r in x:
-            d = r.to_dict()
-            rows.append({str(k): canon(v, _depth + 1) for k, v in d.items() if canon(v, _depth + 1) is not None})
-        return {"__table__": rows}
-    if tn == "Row":
-        d = x.to_dict()
-        return {"__row__": {str(k): canon(v, _depth + 1) for k, v in d.items() if canon(v, _depth + 1) is not None}}
+        return [canon(r, _depth + 1) for r in x]
+    if tn == "SFGNode":
+        return {"__sfgnode__": canon(x.to_tuple(), _depth + 1)}
+    fs = _fields(x)
+    if fs is not None:
+        return _map((str(k), canon(v, _depth + 1)) for k, v in fs)
     # graphs
     try:
         import networkx as nx
@@ -82,13 +104,6 @@ def canon(x, _depth=0):
         return {"__bvm__": canon(x.bit_pos_to_id, _depth + 1), "counter": canon(x.counter)}
     if tn == "CallSite":
         return {"__callsite__": [canon(x.caller_id), canon(x.call_stmt_id), canon(x.callee_id)]}
-    if tn == "SFGNode":
-        return {"__sfgnode__": canon(x.to_tuple(), _depth + 1)}
-    if dataclasses.is_dataclass(x) and not isinstance(x, type):
-        out = {"__cls__": tn}
-        for f in dataclasses.fields(x):
-            out[f.name] = canon(getattr(x, f.name), _depth + 1)
-        return out
     try:
         import pandas as pd
         if x is pd.NA or x is pd.NaT:
@@ -96,9 +111,30 @@ def canon(x, _depth=0):
     except ImportError:
         pass
     if hasattr(x, "__dict__"):
-        return {"__obj__": tn, "attrs": {k: canon(v, _depth + 1) for k, v in sorted(vars(x).items())
-                                          if not k.startswith("_") and not callable(v)}}
+        return _map((k, canon(v, _depth + 1)) for k, v in sorted(vars(x).items()) if not k.startswith("_") and not callable(v))
     return repr(x)
+
+
+def canon_guided(obs, exp, _depth=0):
+    """canonical form of `obs`, sorting list-like values where `exp` has a set at the same place."""
+    np = _np()
+    if _depth > 40:
+        return canon(obs)
+    if isinstance(exp, (set, frozenset)) and isinstance(obs, (list, tuple, np.ndarray, set, frozenset, range)):
+        return sorted((canon(v, _depth + 1) for v in obs), key=_sort_key)
+    if isinstance(exp, dict) and isinstance(obs, dict):
+        ek = {_sort_key(canon(k)): v for k, v in exp.items()}
+        return _map((canon(k), canon_guided(v, ek.get(_sort_key(canon(k))), _depth + 1)) for k, v in obs.items())
+    if isinstance(exp, (list, tuple)) and isinstance(obs, (list, tuple, np.ndarray)) and len(exp) == len(obs):
+        return [canon_guided(o, e, _depth + 1) for o, e in zip(obs, exp)]
+    ef, of = _fields(exp) if exp is not None else None, _fields(obs) if obs is not None else None
+    if ef is not None and of is not None:
+        ed = dict(ef)
+        return _map((str(k), canon_guided(v, ed.get(k), _depth + 1)) for k, v in of)
+    tn = type(exp).__name__
+    if tn == "SymbolStateSpace" and type(obs).__name__ == "SymbolStateSpace" and len(exp.space) == len(obs.space):
+        return {"__space__": [canon_guided(o, e, _depth + 1) for o, e in zip(obs.space, exp.space)]}
+    return canon(obs, _depth)
 
 
 def canon_json(x):
@@ -118,38 +154,20 @@ def tokens(c, out=None):
     elif isinstance(c, float):
         pass
     elif isinstance(c, str):
-        s = c
-        if "tk" in s:
-            # a string may embed several tokens (json / literal encodings): split on non-token characters
-            cur = ""
-            for ch in s:
-                if ch.isalnum() or ch == "_":
-                    cur += ch
-                else:
-                    if "tk" in cur:
-                        out.add(cur)
-                    elif cur.lstrip("-").isdigit() and abs(int(cur)) >= 1000:
-                        out.add(str(int(cur)))
-                    cur = ""
-            if "tk" in cur:
-                out.add(cur)
-            elif cur.lstrip("-").isdigit() and abs(int(cur)) >= 1000:
-                out.add(str(int(cur)))
-        else:
-            cur = ""
-            for ch in s + " ":
-                if ch.isdigit() or (ch == "-" and not cur):
-                    cur += ch
-                else:
-                    if cur.lstrip("-").isdigit() and abs(int(cur)) >= 1000:
-                        out.add(str(int(cur)))
-                    cur = ""
+        cur = ""
+        for ch in c + " ":
+            if ch.isalnum() or ch == "_" or (ch == "-" and not cur):
+                cur += ch
+            else:
+                if "tk" in cur:
+                    out.add(cur.lstrip("-"))
+                elif cur.lstrip("-").isdigit() and abs(int(cur)) >= 1000:
+                    out.add(str(int(cur)))
+                cur = ""
     elif isinstance(c, list):
         for v in c:
             tokens(v, out)
     elif isinstance(c, dict):
         for k, v in c.items():
-            if k in ("__cls__", "__obj__"):
-                continue
             tokens(v, out)
     return out
